@@ -37,8 +37,12 @@ class ScopeLifeDriver:
             c = cfg[i - 1] if isinstance(cfg, (list, tuple)) else cfg[i]
             en = {"ok": "ok", "fail": "fail", "susp": "suspend"}[c["en"]]
             ex = {"ok": "ok", "fail": "fail", "susp": "suspend"}[c["ex"]]
-            self.disps.append(Disp(w, f"d{i}", yields=[("B", i)], enter=en, exit=ex,
-                                   shape="auto" if i % 2 else "list"))
+            # every disposable yields the state B = its index - except the middle one of three, which yields nothing
+            # (returns None): the body must see the one declared last, whatever the order in which they finished
+            # entering, and a disposable that yields nothing is entered / exited like any other
+            silent = self.nd >= 3 and i == 2
+            self.disps.append(Disp(w, f"d{i}", yields=[] if silent else [("B", i)], enter=en, exit=ex,
+                                   shape="none" if silent else ("auto" if i % 2 else "list")))
         w.start("1")
         w.do("1", "sscope", 100, [("A", 1)], None)
         w.do("1", "try")
